@@ -289,6 +289,20 @@ fn type_family() -> Vec<Case> {
         push("struct-field", t, format!("(type (struct (field {}) (field (mut {}))))", t, t));
         push("array-elem", t, format!("(type (array (mut {})))", t));
         push("func-type-in-rec", t, format!("(rec (type (func (param {}))) (type (struct)))", t));
+        // a value flows from one typed position into another one: some positions go through the IR's own
+        // type representation (params, results, locals, fields), others are emitted from the parsed
+        // operator or section (block types, select, global and table types) - a type that comes back
+        // wider or narrower on one of the two paths makes the flow ill-typed
+        push("flow-param-to-block", t, format!("(func (param {}) (drop (block (result {}) (local.get 0))))", t, t));
+        push("flow-block-to-local", t, format!("(func (param {}) (local {}) (local.set 1 (block (result {}) (local.get 0))) (drop (local.get 1)))", t, t, t));
+        push("flow-param-to-select", t, format!("(func (param {}) (drop (select (result {}) (local.get 0) (local.get 0) (i32.const 1))))", t, t));
+        push("flow-select-to-result", t, format!("(func (param {}) (result {}) (select (result {}) (local.get 0) (local.get 0) (i32.const 1)))", t, t, t));
+        push("flow-param-to-import-global", t, format!("(import \"e\" \"g\" (global $ig (mut {}))) (func (param {}) (global.set $ig (local.get 0)))", t, t));
+        push("flow-import-global-to-local", t, format!("(import \"e\" \"g\" (global $ig (mut {}))) (func (param {}) (local.set 0 (global.get $ig)))", t, t));
+        if t.starts_with("(ref") {
+            push("flow-param-to-table", t, format!("(import \"e\" \"t\" (table $it 1 {})) (func (param {}) (table.set $it (i32.const 0) (local.get 0)))", t, t));
+            push("flow-table-to-local", t, format!("(import \"e\" \"t\" (table $it 1 {})) (func (param {}) (local.set 0 (table.get $it (i32.const 0))))", t, t));
+        }
         if let Some(init) = init {
             // positions where a VALUE of the type flows into the typed position, so that a type that
             // silently became stricter (e.g. lost nullability) makes the output ill-typed
